@@ -59,19 +59,26 @@ def parseAction? (s : String) : Option Action :=
 
 def parseCols? (s : String) : Option (List Nat) := (s.splitOn ".").mapM String.toNat?
 
+/-- unique index `cols` or `colsWnncols` (partial: WHERE nncols IS NOT NULL), e.g. `1w2` -/
+def parseUIdx? (s : String) : Option UIdx :=
+  match s.splitOn "w" with
+  | [c] => (parseCols? c).map (fun cols => (cols, []))
+  | [c, n] => do pure ((← parseCols? c), (← parseCols? n))
+  | _ => none
+
 /-- `target~action`, target `*` = none -/
 def parseClause? (s : String) : Option Clause :=
   match s.splitOn "~" with
   | [t, a] => do
-    let target ← if t == "*" then some none else (parseCols? t).map some
+    let target ← if t == "*" then some none else (parseUIdx? t).map some
     pure { target := target, action := (← parseAction? a) }
   | _ => none
 
 def parseClauses? (s : String) : Option (List Clause) :=
   if s == "-" then some [] else (s.splitOn "/").mapM parseClause?
 
-def parseUniques? (s : String) : Option (List (List Nat)) :=
-  if s == "-" then some [] else (s.splitOn "|").mapM parseCols?
+def parseUniques? (s : String) : Option (List UIdx) :=
+  if s == "-" then some [] else (s.splitOn "|").mapM parseUIdx?
 
 /-- `row@binds` -/
 def parseParam? (s : String) : Option Param :=
